@@ -12,6 +12,8 @@ import (
 	"sync/atomic"
 	"testing"
 	"time"
+
+	"github.com/maypok86/otter/v2/stats"
 )
 
 type itScenario struct {
@@ -21,8 +23,111 @@ type itScenario struct {
 	Iters   int    `json:"iters"`
 	Bounded int    `json:"bounded"` // 1 = MaximumSize far above the population (nodes carry a life-cycle state)
 	Expiry  int    `json:"expiry"`  // 1 = ExpiryWriting(1h) on a frozen clock
-	Kind    string `json:"kind"`    // all | keys | values
+	Kind    string `json:"kind"`    // all | keys | values | coldest | hottest
 	Seed    int64  `json:"seed"`
+	// loop-body scenarios (sequential): the consumer of the iterator acts between two yields
+	Body int     `json:"body"` // 1 = loop-body scenario
+	N    int     `json:"n"`    // keys 0..N-1, key k written at second k*Step with a lifetime of TTL seconds
+	TTL  int64   `json:"ttl"`
+	Step int64   `json:"step"`
+	Acts []itAct `json:"acts"`
+}
+
+// itAct: what the loop body does after the At-th yield (0-based): adv = the clock moves by D seconds, set = Set(K, new
+// value), inv = Invalidate(K)
+type itAct struct {
+	At  int    `json:"at"`
+	Act string `json:"act"`
+	K   int    `json:"k"`
+	D   int64  `json:"d"`
+}
+
+type itBodyResult struct {
+	T      string     `json:"t"`
+	Sc     itScenario `json:"sc"`
+	Exp    []int64    `json:"exp"`    // deadline of key k in seconds when the iteration starts (-1: absent)
+	T0     int64      `json:"t0"`     // clock when the iteration starts
+	Yields [][]int64  `json:"yields"` // [key, value (or -1), clock at the yield]
+	St0    []int64    `json:"st0"`    // hits, misses before
+	St1    []int64    `json:"st1"`    // hits, misses after
+}
+
+// runIterBody: one goroutine, same-goroutine executor, manual clock.  The loop body of the iteration moves the clock,
+// replaces values and invalidates keys; every yield is logged with the clock at that moment.
+func runIterBody(sc itScenario) itBodyResult {
+	const sec = int64(time.Second)
+	base := int64(1_000_000_000)
+	clk := newManualClock(base)
+	ctr := stats.NewCounter()
+	o := &Options[int, int]{Clock: clk, Executor: func(fn func()) { fn() }, StatsRecorder: ctr,
+		ExpiryCalculator: ExpiryWriting[int, int](time.Duration(sc.TTL) * time.Second)}
+	if sc.Bounded == 1 {
+		o.MaximumSize = 1 << 20
+	}
+	c := Must(o)
+	defer c.StopAllGoroutines()
+	res := itBodyResult{T: "iterbody", Sc: sc, Exp: []int64{}, Yields: [][]int64{}}
+	for k := 0; k < sc.N; k++ {
+		c.Set(k, k)
+		clk.now.Add(sc.Step * sec)
+	}
+	for k := 0; k < sc.N; k++ {
+		if e, ok := c.GetEntryQuietly(k); ok {
+			res.Exp = append(res.Exp, (e.ExpiresAtNano-base)/sec)
+		} else {
+			res.Exp = append(res.Exp, -1)
+		}
+	}
+	snap := func() []int64 {
+		st := c.Stats()
+		return []int64{int64(st.Hits), int64(st.Misses)} //nolint:gosec // small
+	}
+	res.St0 = snap()
+	res.T0 = (clk.NowNano() - base) / sec
+	idx := 0
+	ver := 1
+	body := func(k, v int) {
+		res.Yields = append(res.Yields, []int64{int64(k), int64(v), (clk.NowNano() - base) / sec})
+		for _, a := range sc.Acts {
+			if a.At != idx {
+				continue
+			}
+			switch a.Act {
+			case "adv":
+				clk.now.Add(a.D * sec)
+			case "set":
+				c.Set(a.K, a.K+10000*ver)
+				ver++
+			case "inv":
+				c.Invalidate(a.K)
+			}
+		}
+		idx++
+	}
+	switch sc.Kind {
+	case "keys":
+		for k := range c.Keys() {
+			body(k, -1)
+		}
+	case "values":
+		for v := range c.Values() {
+			body(v%10000, v)
+		}
+	case "coldest":
+		for e := range c.Coldest() {
+			body(e.Key, e.Value)
+		}
+	case "hottest":
+		for e := range c.Hottest() {
+			body(e.Key, e.Value)
+		}
+	default:
+		for k, v := range c.All() {
+			body(k, v)
+		}
+	}
+	res.St1 = snap()
+	return res
 }
 
 type itResult struct {
@@ -123,6 +228,13 @@ func TestVerifIter(t *testing.T) {
 	defer w.Flush()
 	enc := json.NewEncoder(w)
 	for _, sc := range scs {
+		if sc.Acts == nil {
+			sc.Acts = []itAct{} // never "null" in a record
+		}
+		if sc.Body == 1 {
+			_ = enc.Encode(runIterBody(sc))
+			continue
+		}
 		_ = enc.Encode(runIterScenario(sc))
 	}
 }
